@@ -63,6 +63,11 @@ def read_client_conf():
                     if os.path.exists(p):
                         loc = p
                         break
+                else:
+                    # None exists yet: still the platform default, not a missing or empty location
+                    # (an empty one makes the stores end up in the current working directory)
+                    if paths:
+                        loc = os.path.expandvars(paths[0])
         return ':'.join((scheme, loc))
 
     path = get_path()
